@@ -292,5 +292,6 @@ def climb_type_tree(var_stack, curr_scope: Scope, obj_tree: dict):
         if var_obj is None:
             return None
     else:
-        raise KeyError
+        # Too many links to follow, give up
+        return None
     return type_obj
